@@ -21,6 +21,10 @@ from vlib import MachineryFault
 
 ALLQ = ["sp_keeps_writes", "uniq_tombstone_first", "lazy_usnap", "uidx_no_own_removal", "auto_ignores_explicit",
         "pk_get_sees_own_deleted", "upd_own_inserted_u_fails", "ddl_first_pk_only"]
+# quirks repaired in /repo meanwhile: spec/model_flags.json {"SQLTx_fixed_quirks": [...]} (or VERIF_FIXED_QUIRKS=a,b for trying a
+# patch); they are no longer part of "the code as transcribed" (no counterexample run, not used to explain deviations)
+FIXEDQ = set(vlib.model_flag("SQLTx_fixed_quirks", []) or []) | {q for q in os.environ.get("VERIF_FIXED_QUIRKS", "").split(",") if q}
+ALLQ = [q for q in ALLQ if q not in FIXEDQ]
 ALLKINDS = ["begin", "commit", "rollback", "close", "sp", "rbto", "rel", "insA", "insAbad", "insE", "insN", "ups", "updU", "updV",
             "updAllV", "del", "delAll", "selAll", "selPk", "selU", "crIdx"]
 UNIQ_QUIRKS = {"uniq_tombstone_first", "lazy_usnap", "uidx_no_own_removal", "ddl_first_pk_only"}
@@ -289,7 +293,7 @@ def profile(pid, tier):
         ]
         if thorough:
             sim += [(consts(NS=2, MaxStmts=8, Kinds=set(ALLKINDS) - {"crIdx"}), 800)]
-        return {"design": design, "code": code, "sim": sim}
+        return {"design": design, "code": [x for x in code if x[0] not in FIXEDQ], "sim": sim}
     design = [
         ("savepoints (2 names, nesting, re-use), 1 session x 7", consts(NS=1, MaxStmts=7, VVals={"p"}, ExplIds={1}, TxSessions={1},
                                                                     Kinds={"begin", "commit", "sp", "rbto", "rel", "insA", "del"}), 3),
@@ -306,7 +310,7 @@ def profile(pid, tier):
         ("lazy_usnap", consts(NS=2, MaxStmts=3, VVals={"p"}, TxSessions={1}, Kinds={"begin", "insA", "selU", "selAll"}, Quirks={"lazy_usnap"}), {"NoDirtyReads", "IndexViewConsistent"}),
         ("uidx_no_own_removal", consts(NS=1, MaxStmts=4, VVals={"p"}, ExplIds={1}, TxSessions={1}, Kinds={"begin", "insA", "del", "selU"}, Quirks={"uidx_no_own_removal"}), {"IndexViewConsistent", "OwnWritesVisible"}),
     ]
-    if thorough:
+    if thorough or os.environ.get("VERIF_ALLCODE"):
         code += [
             ("pk_get_sees_own_deleted", consts(NS=1, MaxStmts=4, VVals={"p"}, ExplIds={1}, TxSessions={1}, Kinds={"begin", "insA", "del", "insN", "ups"}, Quirks={"pk_get_sees_own_deleted"}), None),
             ("auto_ignores_explicit", consts(NS=1, MaxStmts=3, VVals={"p"}, ExplIds={1, 2}, TxSessions={1}, Kinds={"begin", "insA", "insE"}, Quirks={"auto_ignores_explicit"}), None),
@@ -318,7 +322,7 @@ def profile(pid, tier):
     ]
     if thorough:
         sim += [(consts(NS=1, MaxStmts=10, TxSessions={1}, Kinds={"begin", "commit", "rollback", "sp", "rbto", "rel", "insA", "ups", "updU", "updV", "del", "selAll", "selU"}), 600)]
-    return {"design": design, "code": code, "sim": sim}
+    return {"design": design, "code": [x for x in code if x[0] not in FIXEDQ], "sim": sim}
 
 
 def run_sqltx(chk, args):
